@@ -109,5 +109,28 @@ for k, (name, ed) in enumerate(todo):
     seeds.append({"id": f"refactoring/{name}", "property": "+", "properties": props_, "edits": ed, "expect": None, "benign": True,
                   "origin": "independent sub-agent refactoring", "note": ""})
     n_ben += 1
+# witnesses from the mutation sweep (tools/mutwitness.py): one or two single-edit mutants per rule that reports them; kept only if the property's check
+# reports the text-level edit on the current tree
+wf = ROOT / "tools" / "mutsweep_results" / "witnesses.json"
+n_wit = 0
+if wf.exists():
+    W = json.loads(wf.read_text())
+
+    def _confirm(w):
+        srcs = dict(BASE_SRC)
+        if srcs[w["module"]].count(w["old"]) != 1:
+            return False
+        srcs[w["module"]] = srcs[w["module"]].replace(w["old"], w["new"])
+        st, F, ctx, msg = analyse(w["property"], srcs)
+        st0, F0, _c, _m = analyse(w["property"], BASE_SRC)
+        return st == "ok" and bool({f.key() for f in F} - {f.key() for f in F0})
+    with cf.ProcessPoolExecutor(14) as ex:
+        oks = list(ex.map(_confirm, W))
+    for w, ok in zip(W, oks):
+        if ok:
+            seeds.append({"id": w["id"], "property": w["property"], "edits": [{"module": w["module"], "old": w["old"], "new": w["new"]}], "expect": w["rule"], "benign": False,
+                          "origin": "mutation sweep (single-edit mutant the pinned suite does not notice)", "note": ""})
+            n_wit += 1
 (ROOT / "sa" / "selfval_seeds.json").write_text(json.dumps(seeds, indent=0) + "\n")
+print(n_wit, "mutation-sweep witnesses")
 print(len(seeds), "seed entries;", sum(1 for s in seeds if s["benign"]), "benign;", n_sub, "sub-agent changes;", n_ben, "sub-agent refactorings")
